@@ -303,7 +303,23 @@ impl ByteCodeGenerator {
         });
 
         let staged: Vec<(TypeSize, Reg, TypeSize)> = if has_overlap {
-            placements
+            // `find` above released the registers of the argument values, so the allocator would
+            // hand them out again as staging space while later arguments still have to be read
+            // from them: keep everything up to the highest source and destination word reserved
+            // until all arguments are staged.
+            let floor = placements
+                .iter()
+                .map(|(dst, src, size)| (*dst + *size).max(*src + *size))
+                .max()
+                .unwrap_or(0);
+            let guard_key = Arc::new(mir::Value::Register(u64::MAX - placements.len() as u64));
+            if floor > 0 {
+                self.vregister
+                    .get_top()
+                    .0
+                    .insert(guard_key.clone(), MemoryRegion(floor - 1, 1));
+            }
+            let staged = placements
                 .iter()
                 .enumerate()
                 .map(|(idx, (dst, src, size))| {
@@ -319,7 +335,9 @@ impl ByteCodeGenerator {
                     }
                     (*dst, tmp, *size)
                 })
-                .collect()
+                .collect();
+            self.vregister.get_top().0.remove(&guard_key);
+            staged
         } else {
             placements
         };
